@@ -2,6 +2,7 @@ package memstore
 
 import (
 	"fmt"
+	"os"
 	"runtime"
 	"sort"
 	"sync"
@@ -122,6 +123,9 @@ func (s *Sched) settle(timeout time.Duration) (nparked, running int) {
 // step i (modulo the number of parked calls, after sorting them by actor then arrival); when
 // choices run out index 0 is used. It returns an error if nothing progresses for stall.
 func (s *Sched) Run(choices []int, stall time.Duration) error {
+	// the stall limit only guards against a harness deadlock; on a heavily loaded machine an actor may
+	// need long to reach its next store call, so the nominal limit is stretched (VERIF_GUARD_FACTOR, default 5)
+	stall *= time.Duration(stallFactor())
 	step := 0
 	for {
 		np, run := s.settle(20 * time.Millisecond)
@@ -178,6 +182,16 @@ func (s *Sched) Run(choices []int, stall time.Duration) error {
 		// let the released call complete and its goroutine reach the next yield point
 		runtime.Gosched()
 	}
+}
+
+func stallFactor() int {
+	f := 5
+	if v := os.Getenv("VERIF_GUARD_FACTOR"); v != "" {
+		if _, err := fmt.Sscanf(v, "%d", &f); err != nil || f < 1 {
+			f = 5
+		}
+	}
+	return f
 }
 
 // Free releases everything parked and stops parking (used for clean-up after a failure)
